@@ -106,9 +106,14 @@ package ratelimiting
 //@   ghost spawned int
 //@   ghost reg int
 //@   requires c != nil
-//@   ensures [C09.add.counted] at(U, c.adds) == at(L, c.adds) + 1 && at(U, c.pendingEvents) == at(L, c.pendingEvents) + 1
+// (a closed limiter -- flag read under the lock -- registers nothing and counts nothing: nobody would handle the event)
+//@   ghost wasclosed bool
+//@   at call Load#0 ghost wasclosed = res0
+//@   ensures [C09.add.counted] !wasclosed ==> (at(U, c.adds) == at(L, c.adds) + 1 && at(U, c.pendingEvents) == at(L, c.pendingEvents) + 1)
+//@   ensures [C09.add.closed] wasclosed ==> (at(U, c.adds) == at(L, c.adds) && at(U, c.pendingEvents) == at(L, c.pendingEvents) && spawned == 0 && reg == 0)
 //@   ensures [C09.add.nosignal] at(U, c.signals) == at(L, c.signals) && at(U, c.covered) == at(L, c.covered)
-//@   ensures [C09.add.token] spawned == 1
+//@   ensures [C09.add.token] !wasclosed ==> spawned == 1
+//@   at before call Load#0 assert [C09.add.closed.underlock] heldw(c.lock)
 //@   at entry ghost spawned = 0
 //@   at entry ghost reg = 0
 //@   at every go ghost spawned = spawned + 1
@@ -216,13 +221,11 @@ package ratelimiting
 //@   requires c != nil
 //@   at close#0 assert [C09.close.closes] arg0 == c.closeCh
 
-// Close: the deferred function waits for the WaitGroup while holding c.lock. The goroutines it waits for need
-// c.lock: Run's loop (loop-top RLock, handleInputCh / handleTimerFired) with or without an Add in flight. A
-// wait-order violation, asserted at the blocking call. It FAILS on the current code: registered as a known finding
-// (see /verif/known_findings.json) because the lock is there to order Run's wg.Add against Wait and cannot simply be
-// dropped. Consequences when it strikes (audit-C09 G1): Close never returns; every later Add() blocks its caller for
-// ever on c.lock; cancelling Run's context does not help (Run is blocked on c.lock, not in its select); the rate
-// grows with the number of tokens in flight.
+// Close's deferred function: the wait-order obligation. It must not wait for the WaitGroup while holding c.lock, because
+// the goroutines it waits for (Run's loop in handleInputCh / handleTimerFired) need c.lock. This failed on the original
+// code (Close waited under the lock: deadlock with a pending event in flight; repaired, see /verif/known_findings.json):
+// the lock is now taken and released before the wait, and registration of new goroutines (Run, Add) happens only under
+// the lock while the limiter is not closed ([C09.run.closed], [C09.add.closed]).
 //@ func (*coalescing).Close$1
 //@   tags C09
 //@   requires c != nil
@@ -257,8 +260,15 @@ package ratelimiting
 //@   at call Done#0 ghost ndone = ndone + 1
 //@   at every call CancelFunc ghost ncancel = ncancel + 1
 //@   at select#0 assert [C09.run.registered] reg == 1
-//@   ensures [C09.run.ends] result == nil ==> (sel == c.closeCh || sel == dctx.donech)
-//@   ensures [C09.run.deregisters] result == nil ==> ndone == 1
-//@   ensures [C09.run.cancels] (result == nil && sel == c.closeCh) ==> ncancel >= 1
+// a limiter that is already closed (flag read under the lock, before registering) is not run at all
+//@   ghost wasclosed bool
+//@   at entry ghost wasclosed = false
+//@   at call Load#0 ghost wasclosed = res0
+//@   at before call Load#0 assert [C09.run.closed.underlock] heldw(c.lock)
+//@   at call Add#0 assert [C09.run.closed] !wasclosed && heldw(c.lock)
+//@   ensures [C09.run.ends] result == nil ==> (wasclosed || sel == c.closeCh || sel == dctx.donech)
+//@   ensures [C09.run.deregisters] result == nil ==> ndone == (wasclosed ? 0 : 1)
+//@   ensures [C09.run.closed.noreg] wasclosed ==> (reg == 0 && nolocks())
+//@   ensures [C09.run.cancels] (result == nil && !wasclosed && sel == c.closeCh) ==> ncancel >= 1
 //@   at before call handleInputCh#0 assert [C09.run.ctx.input] arg1 == dctx
 //@   at before call handleTimerFired#0 assert [C09.run.ctx.timer] arg1 == dctx
